@@ -170,9 +170,21 @@ pub fn run(ctx: &Ctx) -> Report {
     let mut sec = Section::new(&format!("generated[{}]", ctx.variant), "start value x setter words up to length 10");
     run_generated(&mut sec, ctx.seed, ctx.cases(300_000, 6_000_000), ctx.workers, strategy, check, |_, _| "c14:encoding".into());
     rep.sections.push(sec);
+    // the byte a live display sends: every orientation -> orientation transition through
+    // Display::set_orientation (which changes one input on the value cached since init)
+    let mut sec = Section::new(
+        &format!("display-transitions[{}]", ctx.variant),
+        "all 8x8 set_orientation transitions on displays with 5 option/geometry sets (C10's all-transitions cases): the address mode that reaches the controller is the encoding of the new orientation with unchanged colour-order and refresh bits, and drawing agrees with a display built that way",
+    );
+    sec.exhaustive = true;
+    run_enumerated(&mut sec, super::c10::all_transitions(), ctx.workers, super::c10::check, |_, r| format!("c14:display:{}", r.chars().take(30).collect::<String>()));
+    rep.sections.push(sec);
     rep
 }
 
-pub fn replay(_section: &str, case: &Value) -> Result<(), String> {
+pub fn replay(section: &str, case: &Value) -> Result<(), String> {
+    if section.starts_with("display-transitions") {
+        return super::c10::check(&de::<super::c10::OrientCase>(case)?, &mut CaseInfo::default());
+    }
     check(&de::<ModeCase>(case)?, &mut CaseInfo::default())
 }
